@@ -38,7 +38,7 @@ pub const UNICODE_WS: [char; 14] = [
     '\u{000C}', '\u{2009}',
 ];
 
-pub const COMMENT_BODIES: [&str; 16] = [
+pub const COMMENT_BODIES: [&str; 20] = [
     "",
     " plain comment",
     " #[derive(Debug)]",
@@ -55,6 +55,10 @@ pub const COMMENT_BODIES: [&str; 16] = [
     " ) ] } ( [ {",
     " \"quoted\" 'c'",
     "/",
+    " cr\rstart Foo",
+    "\r$x @",
+    " x\r#[",
+    "\u{2028}struct \u{0085}enum",
 ];
 
 #[derive(Clone, Debug, Default)]
